@@ -47,12 +47,12 @@ def plan(tier, seed):
     if tier == "thorough":
         return {
             "nshards": 16,
-            "params": {"soft_s": 600, "max_programs": 100000},
+            "params": {"soft_s": 600, "max_programs": 100000, "min_programs": 25},
             "hard_timeout_s": 1500,
         }
     return {
         "nshards": 16,
-        "params": {"soft_s": 40, "max_programs": 400},
+        "params": {"soft_s": 40, "max_programs": 400, "min_programs": 6},
         "hard_timeout_s": 400,
     }
 
@@ -85,15 +85,16 @@ def _mk_caller(mod):
     """A function whose globals are the program module's: exo looks for Extern
     objects in the *caller's* frame to decide whether `sin(_)` is an expression.
     Generated modules define it themselves (real file: cheap for inspect.stack)."""
-    f = getattr(mod, "_c16_call_find", None)
-    if f is not None:
-        return f
     ns = vars(mod)
-    exec(
-        "def _c16_call_find(obj, pat, many):\n    return obj.find(pat, many=many)\n",
-        ns,
-    )
-    return ns["_c16_call_find"]
+    if "_c16_call_find" not in ns or "_c16_call_find_all" not in ns:
+        exec(
+            "def _c16_call_find(obj, pat, many):\n    return obj.find(pat, many=many)\n"
+            "def _c16_call_find_all(obj, pat):\n    return obj.find_all(pat)\n",
+            ns,
+        )
+    f = ns["_c16_call_find"]
+    f.find_all = ns["_c16_call_find_all"]
+    return f
 
 
 # --------------------------------------------------------------------------- #
@@ -221,7 +222,7 @@ def _real_find(p, caller, pattern, api, scope_path=None, block_scope=None, expr_
         else:
             obj = p
         if api == "find_all":
-            r = obj.find_all(pattern)
+            r = caller.find_all(obj, pattern)
         elif api == "find_many":
             r = caller(obj, pattern, True)
         elif api == "find_one":
@@ -256,8 +257,8 @@ def check_find(p, caller, past, pattern, pclass, scope_path=None, block_scope=No
     X = _exo()
     ir = p.INTERNAL_proc()
     viol = []
-    info = {"sure_match": 0, "sure_nomatch": 0, "unsure": 0, "undoc": 0, "real": 0, "sel": 0,
-            "sel_oor": 0}
+    info = {"sure_match": 0, "sure_nomatch": 0, "unsure": 0, "undoc": 0, "undoc_cand": 0,
+            "real": 0, "sel": 0, "sel_oor": 0}
     scoped = "expr" if expr_scope is not None else (
         "block" if block_scope is not None else ("stmt" if scope_path is not None else "proc"))
     if api is None:
@@ -298,6 +299,8 @@ def check_find(p, caller, past, pattern, pclass, scope_path=None, block_scope=No
     is_stmt = isinstance(past, list)
     for c in ref:
         if not c["doc"]:
+            if c.get("may"):
+                info["undoc_cand"] += 1  # e.g. an allocation size that would match
             continue
         may = bool(c["may_ends"]) if is_stmt else c["may"]
         if c["must"]:
@@ -947,6 +950,7 @@ def _find_case(W, p, caller, src, procname, past, pattern, pclass, scope_path=No
     W.stat("candidates_sure_nomatch", info["sure_nomatch"])
     W.stat("candidates_unsure", info["unsure"])
     W.stat("undocumented_position", info["undoc"])
+    W.stat("undocumented_position_candidates", info["undoc_cand"])
     W.stat("select_checks", info["sel"])
     W.stat("select_out_of_range", info["sel_oor"])
     if mutated:
@@ -1333,7 +1337,9 @@ def shard(ctx):
         for k, src in enumerate(G.CORPUS):
             run(src, f"c{k}")
             nprog += 1
-    while nprog < maxp and not ctx.out_of_time():
+    # wall-clock only limits generation above a floor that every shard reaches
+    minp = int(ctx.params.get("min_programs", 0))
+    while nprog < minp or (nprog < maxp and not ctx.out_of_time()):
         size = rng.choice([0, 1, 1, 2, 2, 3])
         src = G.gen_program(rng, size)
         run(src, f"s{ctx.shard}")
@@ -1354,22 +1360,23 @@ def shard(ctx):
 def finish(agg, tier):
     s = agg.stats
     quick = tier != "thorough"
+    # about a third of what a run on a heavily loaded machine reaches
     need = {
-        "programs": 60 if quick else 1500,
-        "pairs": 3000 if quick else 80000,
-        "pairs_with_sure_match": 1000 if quick else 40000,
+        "programs": 60 if quick else 350,
+        "pairs": 3000 if quick else 35000,
+        "pairs_with_sure_match": 1000 if quick else 25000,
         "pairs_no_match": 300 if quick else 10000,
         "pairs_sure_no_match": 150 if quick else 8000,
         "select_checks": 2000 if quick else 60000,
-        "select_out_of_range": 300 if quick else 10000,
-        "pairs_scope_stmt": 200 if quick else 8000,
-        "pairs_scope_expr": 30 if quick else 1500,
-        "nav_law_evaluations": 20000 if quick else 700000,
-        "nav_positions": 2000 if quick else 80000,
-        "nav.edge_next": 200 if quick else 6000,
-        "nav.edge_prev": 200 if quick else 6000,
-        "nav.expand_edge": 500 if quick else 25000,
-        "nav.child_orelse": 20 if quick else 800,
+        "select_out_of_range": 300 if quick else 15000,
+        "pairs_scope_stmt": 200 if quick else 4000,
+        "pairs_scope_expr": 30 if quick else 800,
+        "nav_law_evaluations": 20000 if quick else 120000,
+        "nav_positions": 2000 if quick else 15000,
+        "nav.edge_next": 200 if quick else 1200,
+        "nav.edge_prev": 200 if quick else 1200,
+        "nav.expand_edge": 500 if quick else 4000,
+        "nav.child_orelse": 20 if quick else 140,
     }
     inconc = []
     for k, v in need.items():
@@ -1392,6 +1399,8 @@ def finish(agg, tier):
         "select_n_out_of_range": s.get("select_out_of_range", 0),
         "candidates": {k: s.get("candidates_" + k, 0) for k in ("sure_match", "sure_nomatch", "unsure")},
         "undocumented_position_hits": s.get("undocumented_position", 0),
+        "undocumented_position_candidates_not_returned": s.get("undocumented_position_candidates", 0)
+        - s.get("undocumented_position", 0),
         "navigation_law_evaluations": dict(sorted(laws.items())),
         "cursor_positions_visited": s.get("nav_positions", 0),
         "distinct_shape_class_combos": len(agg.distinct),
